@@ -159,9 +159,10 @@ fn chan_sched(a: &Args) {
       let cfg = sched::Cfg {
         flavour: fl.clone(),
         cap: caps[ru % caps.len()],
-        producers: 1 + (ru / 2) % 2,
-        consumers: 1 + (ru / 4) % 2,
-        items: 1 + (ru / 3) % 3,
+        // contention is where the protocols are subtle: mostly two producers, often two consumers
+        producers: if ru % 3 == 0 { 1 } else { 2 },
+        consumers: 1 + (ru / 3) % 2,
+        items: 1 + (ru / 5) % 3,
         seed: seed.wrapping_mul(1_000_003).wrapping_add((fi as u64) << 32).wrapping_add(r),
         strategy: strategies[ru % strategies.len()].clone(),
         shape: shapes[(ru / strategies.len()) % shapes.len()].clone(),
